@@ -111,6 +111,25 @@ def run(ctx):
                  "--discard-untrimmed) and --max-aer, single and paired; non-trivial = distinct case in which at least one read was filtered", nontrivial)
     for case, res, real, model in pipe.run_cases(ctx, directed_cases(ctx)):
         oracle(ctx, case, res, real)
+    # runs through the adapter index (default mode with several anchored adapters): filters, discard options, demultiplexing
+    def extras(rng):
+        e = []
+        if rng.random() < 0.4:
+            e += ["-m", str(rng.randint(1, 20))]
+        x = rng.random()
+        demux = rng.random() < 0.4
+        if x < 0.25:
+            e.append("--discard-untrimmed")
+        elif x < 0.4 and not demux:
+            e.append("--discard-trimmed")
+        elif x < 0.6:
+            e += ["--untrimmed-output", "{dir}/ut1.fastq"]
+        if rng.random() < 0.2:
+            e += ["--action", rng.choice(["mask", "none", "lowercase"])]
+        if demux:
+            e += ["-o", "{dir}/dm-{name}.1.fastq"]
+        return e
+    pipeprop.indexed_sweep(ctx, oracle, 60, 1500, extras)
 
 
 def extended_search(ctx):
